@@ -183,6 +183,17 @@ func runC08(e *Env) {
 	for _, n := range ns {
 		fj = append(fj, playCase{Path: "cli", Insts: doc, Cfg: writeCfg{Tracks: n}})
 	}
+	for _, h := range hist {
+		if len(h) <= 2 {
+			for _, n := range []int{1, 2, 3, 17} {
+				c := playCase{Path: "cli", Cfg: writeCfg{Tracks: n}}
+				for _, o := range h {
+					c.Insts = append(c.Insts, all[o])
+				}
+				fj = append(fj, c)
+			}
+		}
+	}
 	mc.ParFor(len(fj), func(i int) {
 		c := fj[i]
 		c08Eval(e, &c, true)
@@ -192,7 +203,7 @@ func runC08(e *Env) {
 		e.R.Trace(1)
 		e.R.NonTrivial("flags" + fmt.Sprint(i))
 	})
-	e.R.AddPart(ev.Part{Name: "flag-product", Enumerated: "real binary and in-process: --program 0..255 x N in {1,2}; 8 instrument names (empty, 127, 128, 300 bytes, non-ASCII, newline) x N in {1,3}; all track counts", Executions: int64(2 * len(fj)), Exhaustive: true})
+	e.R.AddPart(ev.Part{Name: "flag-product", Enumerated: "real binary and in-process: --program 0..255 x N in {1,2}; 8 instrument names (empty, 127, 128, 300 bytes, non-ASCII, newline) x N in {1,3}; all track counts; all histories of length <= 2 over the 15 shapes x N in {1,2,3,17}", Executions: int64(2 * len(fj)), Exhaustive: true})
 	// durations at and beyond the limit of a 4-byte delta (2^28 ticks = 279 620.27 beats)
 	var longs []playCase
 	for _, beats := range []uint64{279620, 279621, 300000, 5000000} {
